@@ -1756,15 +1756,18 @@ pub mod verif_hooks {
         .0
     }
 
+    /// The command channel a connection task would serve.
+    pub struct CommandQueue(tokio::sync::mpsc::Receiver<crate::protocol::ProtocolCommand>);
+
     /// A connection handle and the command channel its connection task would serve.
-    pub fn new_connection(connection_id: ConnectionId) -> (ConnectionHandle, tokio::sync::mpsc::Receiver<crate::protocol::ProtocolCommand>) {
+    pub fn new_connection(connection_id: ConnectionId) -> (ConnectionHandle, CommandQueue) {
         let (tx, rx) = tokio::sync::mpsc::channel(16);
-        (ConnectionHandle::new(connection_id, tx), rx)
+        (ConnectionHandle::new(connection_id, tx), CommandQueue(rx))
     }
 
     /// The (substream id, connection id) of the next substream-open command queued on `rx`.
-    pub fn next_open_command(rx: &mut tokio::sync::mpsc::Receiver<crate::protocol::ProtocolCommand>) -> Option<(SubstreamId, ConnectionId)> {
-        match rx.try_recv() {
+    pub fn next_open_command(queue: &mut CommandQueue) -> Option<(SubstreamId, ConnectionId)> {
+        match queue.0.try_recv() {
             Ok(crate::protocol::ProtocolCommand::OpenSubstream { substream_id, connection_id, .. }) => Some((substream_id, connection_id)),
             _ => None,
         }
